@@ -25,6 +25,88 @@ def cross(a, b):
     return [a[1] * b[2] - a[2] * b[1], a[2] * b[0] - a[0] * b[2], a[0] * b[1] - a[1] * b[0]]
 
 
+def _lcfs_mask(run, mk, fn0, M, path):
+    """inside  <=>  polygon > 0 and psi_n <= 1, decided per path of EFITLCFSMask.evaluate"""
+    import copy
+    from ..pathinterp import PathInterp
+    from ..exprcmp import EmEval
+
+    class BoolRet(ast.NodeTransformer):
+        def visit_Return(self, n):
+            if isinstance(n.value, (ast.BoolOp, ast.Compare)) or (isinstance(n.value, ast.UnaryOp) and isinstance(n.value.op, ast.Not)):
+                return ast.copy_location(ast.If(test=n.value, body=[ast.Return(value=ast.Constant(value=1.0))],
+                                                orelse=[ast.Return(value=ast.Constant(value=0.0))]), n)
+            return n
+    fn = BoolRet().visit(copy.deepcopy(fn0))
+    ast.fix_missing_locations(fn)
+    try:
+        paths = PathInterp(fn, (), {}, evaluator=EmEval, max_paths=64, resolve_keys=True).run()
+    except Exception as e:
+        run.undecided('C12-R2', 'LCFS mask', 'cannot interpret: %s' % e)
+        return
+
+    def atoms(dec):
+        P = Q = None
+        aux_q_true = aux_q_false = False
+        for k, b in dec.items():
+            m = k.replace(' ', '')
+            import re
+            mm = re.match(r'^(.*?)(<=|>=|<|>|==|!=)([-0-9.e]+)$', m)
+            if not mm:
+                continue
+            lhs, op, c = mm.group(1), mm.group(2), float(mm.group(3))
+            if '_lcfs_polygon.evaluate(' in lhs:
+                if c == 0 and op == '>':
+                    P = b
+                elif c == 0 and op == '<=':
+                    P = not b
+                elif c == 0 and op in ('==',):
+                    P = (not b) if P is None else P
+                elif c == 0 and op in ('!=',):
+                    P = b if P is None else P
+            elif '_psi_normalised.evaluate(' in lhs:
+                if c == 1 and op == '<=':
+                    Q = b
+                elif c == 1 and op == '>':
+                    Q = not b
+                elif op in ('<', '<=') and c <= 1 and b:
+                    aux_q_true = True
+                elif op in ('>', '>=') and c >= 1 and b and not (op == '>=' and c == 1):
+                    aux_q_false = True
+        if Q is None and aux_q_true:
+            Q = True
+        if Q is None and aux_q_false:
+            Q = False
+        return P, Q
+    bad = None
+    n_in = n_out = 0
+    for p_ in paths:
+        dec = dict(p_.decisions)
+        v = p_.returned
+        if v is None or not v.is_const():
+            run.undecided('C12-R2', 'LCFS mask', 'returned value %s not recognised' % (v.key()[:60] if v is not None else None))
+            return
+        inside = v.const_value() != 0
+        P, Q = atoms(dec)
+        if inside:
+            n_in += 1
+            if P is not True or Q is not True:
+                bad = ('reports a point as inside the LCFS on the path %s, where %s' % (
+                    dec, 'the LCFS polygon was not consulted' if P is None else ('psi_n <= 1 was not established' if Q is not True else 'the point is outside the polygon')))
+                break
+        else:
+            n_out += 1
+            if P is not False and Q is not False:
+                bad = 'reports a point as outside on the path %s although neither "outside the polygon" nor "psi_n > 1" holds there' % dec
+                break
+    if bad:
+        run.fail('C12-R2', M + '|EFITLCFSMask|evaluate|conjunction', path, fn0.lineno, 'LCFS mask %s; documented: inside <=> inside the polygon and psi_n <= 1' % bad)
+    elif n_in and n_out:
+        run.ok('C12-R2', 'LCFS mask', 'inside exactly on the path(s) with polygon > 0 and psi_n <= 1 (%d paths)' % len(paths))
+    else:
+        run.undecided('C12-R2', 'LCFS mask', 'no inside / outside path found')
+
+
 def check(run):
     prog = Program()
     prog.load_many([FILE])
@@ -127,36 +209,51 @@ def _r1(run, classes):
     # FluxCoordToCartesian
     ci = classes['FluxCoordToCartesian']
     fn = ci.methods['evaluate']
-    els = [s for s in fn.body if isinstance(s, ast.If)]
     run.subject('C12-R1')
     ok = False
     detail = None
-    if els and els[-1].orelse:
-        body = els[-1].orelse
+    recog = False
+    if True:
         ev = SymEval()
-        vecs, lens = {}, {}
-        for st in body:
+        vecs, lens, zero_defs = {}, {}, {}
+        for st in ast.walk(fn):
             if isinstance(st, ast.Assign) and isinstance(st.targets[0], ast.Name):
                 v = _vec(st.value, ev)
                 if v:
-                    vecs[st.targets[0].id] = v
+                    if all(c.is_zero() for c in v):
+                        zero_defs[st.targets[0].id] = st        # the zero-field fallback
+                    else:
+                        vecs[st.targets[0].id] = v
             if isinstance(st, ast.Expr) and isinstance(st.value, ast.Call) and isinstance(st.value.func, ast.Attribute) and st.value.func.attr == 'set_length':
                 lens[norm(st.value.func.value)] = norm(st.value.args[0])
-        fvar = [norm(s.targets[0]) for s in fn.body if isinstance(s, ast.Assign) and 'self._field.evaluate' in norm(s.value)]
+        fvar = [norm(s.targets[0]) for s in ast.walk(fn) if isinstance(s, ast.Assign) and 'self._field.evaluate' in norm(s.value)]
         ret = [r for r in ast.walk(fn) if isinstance(r, ast.Return)]
         if fvar and {'toroidal', 'poloidal', 'normal'} <= set(vecs):
+            recog = True
             f = fvar[0]
             m = lambda vs: [v.subst({f + '.x': L('b.x'), f + '.y': L('b.y'), f + '.z': L('b.z')}) for v in vs]
             p2, n2, t2 = m(vecs['poloidal']), m(vecs['normal']), vecs['toroidal']
             detail = ([str(x) for x in p2], [str(x) for x in n2])
             same = all(a.eq(b) for a, b in zip(p2, pol)) and all(a.eq(b) for a, b in zip(n2, nor))
-            psi = [norm(s.targets[0]) for s in fn.body if isinstance(s, ast.Assign) and 'self._psin.evaluate' in norm(s.value)]
+            psi = [norm(s.targets[0]) for s in ast.walk(fn) if isinstance(s, ast.Assign) and 'self._psin.evaluate' in norm(s.value)]
             mags = psi and lens.get('poloidal') == 'self._poloidal.evaluate(%s)' % psi[0] and lens.get('normal') == 'self._normal.evaluate(%s)' % psi[0] \
                 and t2[0].is_zero() and t2[2].is_zero() and t2[1].key() == 'self._toroidal.evaluate(%s)' % psi[0]
             comp = ret and norm(ret[-1].value).replace(' ', '') == 'new_vector3d(poloidal.x+normal.x,toroidal.y,poloidal.z+normal.z)'
-            ok = same and mags and comp
+            # the scaled directions are used only where the in-plane field does not vanish
+            guard_ok = True
+            for nm in ('poloidal', 'normal'):
+                sl = [st for st in ast.walk(fn) if isinstance(st, ast.Expr) and isinstance(st.value, ast.Call) and isinstance(st.value.func, ast.Attribute)
+                      and st.value.func.attr == 'set_length' and norm(st.value.func.value) == nm]
+                for st in sl:
+                    ff = facts(guards_of(fn, st) or [])
+                    if not (((f + '.x', '!=', '0') in ff or (f + '.z', '!=', '0') in ff) or any(a[1] == 'false' and (f + '.x == 0') in a[0] for a in ff)
+                            or any(a[1] == 'true' and (f + '.x != 0') in a[0] for a in ff)):
+                        guard_ok = False
+            ok = same and mags and comp and guard_ok
     if ok:
         run.ok('C12-R1', 'FluxCoordToCartesian', 'same directions as the basis classes, set to the prescribed magnitudes, summed componentwise')
+    elif not recog:
+        run.undecided('C12-R1', 'FluxCoordToCartesian', 'vector construction not recognised')
     else:
         run.fail('C12-R1', K + 'FluxCoordToCartesian|evaluate|composition', ci.mod.relpath, fn.lineno,
                  'FluxCoordToCartesian builds its poloidal/normal directions as %s; the basis classes use %s / %s, each scaled by its own component function '
@@ -194,7 +291,13 @@ def _r2(run, classes):
         if isinstance(st, ast.Assign):
             d[norm(t)] = v
     pn = d.get('self.psi_normalised')
-    _wiring(run, K, 'psi_normalised clamp', pn, 'ClampOutput2D', [norm(pn.args[0]) if isinstance(pn, ast.Call) and pn.args else '?'], path, init.lineno, kw={'min': '0'})
+    if isinstance(pn, ast.Call) and (dotted(pn.func) or '').startswith('Interpolator'):
+        run.subject('C12-R2')
+        run.fail('C12-R2', K + 'psi_normalised-clamp', path, pn.lineno,
+                 'psi_normalised is the bare interpolant %s: nothing clamps its output at zero (a cubic interpolant undershoots its nodes even when the '
+                 'grid values are clipped), so the normalised flux can be negative near the axis; documented: ClampOutput2D(interpolant, min=0)' % norm(pn)[:80])
+    else:
+        _wiring(run, K, 'psi_normalised clamp', pn, 'ClampOutput2D', [norm(pn.args[0]) if isinstance(pn, ast.Call) and pn.args else '?'], path, init.lineno, kw={'min': '0'})
     run.subject('C12-R2')
     inner = pn.args[0] if isinstance(pn, ast.Call) and pn.args else None
     if isinstance(inner, ast.Call) and dotted(inner.func) == 'Interpolator2DArray' and len(inner.args) >= 3:
@@ -253,15 +356,9 @@ def _r2(run, classes):
     # LCFS mask
     mk = classes['EFITLCFSMask']
     fn = mk.methods['evaluate']
-    ret = [r for r in ast.walk(fn) if isinstance(r, ast.Return)]
     r_, z_ = [a.arg for a in fn.args.args[1:3]]
     run.subject('C12-R2')
-    want = 'self._lcfs_polygon.evaluate(%s, %s) > 0.0 and self._psi_normalised.evaluate(%s, %s) <= 1.0' % (r_, z_, r_, z_)
-    got = norm(ret[-1].value) if ret else None
-    if got is not None and got.replace('0.0', '0').replace('1.0', '1') == want.replace('0.0', '0').replace('1.0', '1'):
-        run.ok('C12-R2', 'LCFS mask', 'polygon > 0 and psi_n <= 1')
-    else:
-        run.fail('C12-R2', M + '|EFITLCFSMask|evaluate|conjunction', path, fn.lineno, 'LCFS mask returns %s; documented: inside the polygon and psi_n <= 1' % got)
+    _lcfs_mask(run, mk, fn, M, path)
     # magnetic field components
     mf = classes['MagneticField']
     fn = mf.methods['evaluate']
